@@ -79,7 +79,7 @@ Print Assumptions c03_bitcoin_spends_are_valid_and_pay_the_node.
    opening transaction LiquidOnChain.ValidateTx accepts (the first output with
    the P2WSH script unblinds, with the swap's blinding key, to the swap amount
    of the policy asset with a consistent asset commitment), every wallet
-   (confidential) address, every fee answer with 0 < fee <= amount: one
+   (confidential) address, every fee answer with 0 < fee < amount: one
    transaction, version 2, lock time 0, ONE input spending that validated
    output, witness = the kind's items + opening script, signatures over the
    consensus digest (value commitment of the output spent), TWO outputs: the
@@ -96,7 +96,7 @@ Theorem c03_liquid_spends_are_valid_and_pay_the_node :
   lbtc_validate p csv want outs = true ->
   signers_right kind claim_who taker_who ->
   (kind = 0%N -> parse_preimage preimage = Some pre /\ length pre = 32%nat /\ sha256 pre = pushed h) ->
-  0 < lbtc_fee_of feeopt <= sp_amount p ->
+  0 < lbtc_fee_of feeopt < sp_amount p ->
   sig_sizes_ok sigbytes ->
   exists vi redeem ops t calls,
     lbtc_spend kind p csv want txid outs preimage (mk_lw (Some (ascript, true)) feeopt false claim_who taker_who)
